@@ -23,11 +23,31 @@ def mean_err(mean, mref, q, d, h):
     return float(onp.max(onp.abs(onp.asarray(mean) - mref) * sc) / nm)
 
 
-def cov_err(cov, Pref, Pscale):
+def floored_sd(Pscale, nordsieck=None, floor=1e-12):
+    """Yardstick standard deviations: sqrt(diag(Pscale)), with variances floored at `floor` times the largest
+    variance in Nordsieck coordinates when (q, d, h) is given.  A variance ten orders of magnitude below the
+    others (the solution value right after an exact initial state, an exactly observed derivative) carries
+    only rounding noise and must not be used as a yardstick."""
+    v = onp.abs(onp.diag(Pscale)).astype(float)
+    if nordsieck is not None and v.size:
+        q, d, h = nordsieck
+        sc = nordsieck_scales(q, d, h)
+        if sc.shape == v.shape:
+            vmax = onp.max(v * sc * sc)
+            v = onp.maximum(v, floor * vmax / (sc * sc))
+    return onp.sqrt(v) + 1e-300
+
+
+def cov_err(cov, Pref, Pscale, nordsieck=None):
     """entrywise error relative to sqrt(Pscale_ii Pscale_jj) (Pscale: reference predicted covariance)."""
-    sd = onp.sqrt(onp.abs(onp.diag(Pscale))) + 1e-300
+    sd = floored_sd(Pscale, nordsieck)
     with onp.errstate(all="ignore"):
         return float(onp.nanmax(onp.abs(onp.asarray(cov) - Pref) / onp.outer(sd, sd)))
+
+
+def cross_err(C, Cref, Pscale_i, Pscale_j, nordsieck=None):
+    si, sj = floored_sd(Pscale_i, nordsieck), floored_sd(Pscale_j, nordsieck)
+    return float(onp.max(onp.abs(onp.asarray(C) - Cref) / onp.outer(si, sj)))
 
 
 def scale_tol(kappa):
